@@ -1,7 +1,7 @@
 import Ogorek.Lemmas.Run
 import Ogorek.Lemmas.Keys
 import Ogorek.Props.C19
-import Ogorek.Props.C03
+import Ogorek.Lemmas.EncInt
 import Ogorek.Encoder
 
 /-!
@@ -44,7 +44,7 @@ theorem parses_bool (c : ECfg) (b : Bool) (hp : 0 ≤ c.proto) : Parses (flat (e
 theorem parses_int (c : ECfg) (i : Int) (hi : inInt64 i = true) : Parses (flat (encodeInt c i)) [.pushInt i] := by
   apply Parses.single rfl
   intro t
-  exact (C03_int c i hi t).2
+  exact (encodeInt_parse c i hi t).2
 
 theorem parses_long (i : Int) : Parses (flat (encodeLong i)) [.pushBig i] := by
   apply Parses.single rfl
@@ -98,7 +98,7 @@ theorem parses_counted (short long : UInt8) (mk : Bytes → Insn) (hs : ∀ s, (
     simp only [h, if_true, flat, Out.seq, emit, List.flatten_cons, List.flatten_nil, List.append_nil, List.cons_append,
       List.nil_append, List.append_assoc]
     simp only [parseInsn, Rd.bind, readByte, hshort, Rd.map, readCounted1_exact s t hl, Rd.pure]
-  · simp only [h, if_false, flat, Out.seq, emit, List.flatten_cons, List.flatten_nil, List.append_nil, List.cons_append,
+  · simp only [h, if_false, flat, Out.seq, emit, List.nil_append, List.flatten_cons, List.flatten_nil, List.append_nil, List.cons_append,
       List.append_assoc, le4]
     simp only [parseInsn, Rd.bind, readByte, hlong, Rd.map, readCounted_exact 4 s t (by omega) (by omega), Rd.pure]
 
@@ -121,7 +121,7 @@ theorem parses_bytearray_hi (ip : IsPrint) (c : ECfg) (s : Bytes) (hp : c.proto 
     Parses (flat (encodeByteArray ip c s)) [.pushBytearray s] := by
   apply Parses.single rfl
   intro t
-  simp only [encodeByteArray, hp, if_true, flat, Out.seq, emit, List.flatten_cons, List.flatten_nil, List.append_nil,
+  simp only [encodeByteArray, hp, if_true, flat, Out.seq, emit, List.nil_append, List.flatten_cons, List.flatten_nil, List.append_nil,
     List.cons_append, List.append_assoc, le8]
   simp only [parseInsn, Rd.bind, readByte, parseArg_150, Rd.map, readCounted_exact 8 s t (by omega) (by omega), Rd.pure]
 
@@ -163,9 +163,9 @@ theorem parses_class (ip : IsPrint) (c : ECfg) (m n : Bytes) (hp : c.proto ≥ 1
       · apply Parses.single rfl
         intro t
         have h1 : (10 : UInt8) ∉ m := by
-          have := hlf.1; unfold containsLF at this; simpa using this
+          have := hlf.1; unfold containsLF at this; intro hm; simp at this; exact this 10 hm rfl
         have h2 : (10 : UInt8) ∉ n := by
-          have := hlf.2; unfold containsLF at this; simpa using this
+          have := hlf.2; unfold containsLF at this; intro hm; simp at this; exact this 10 hm rfl
         have e : flat (emit (99 :: m ++ [10] ++ n ++ [10])) ++ t = 99 :: (m ++ 10 :: (n ++ 10 :: t)) := by simp [flat_emit]
         rw [e]
         simp only [parseInsn, Rd.bind, readByte, parseArg_99, readLine_line _ _ h1, Rd.map, readLine_line _ _ h2, Rd.pure]
